@@ -160,21 +160,29 @@ def insert_text_lengths_sql(catalog: str, schema: str, table: str, text_lengths:
     """
 
 
+_TABLES_EXT_KEY = "ext_table_catalog, ext_table_schema, ext_table_name"
+_COLUMNS_EXT_KEY = f"{_TABLES_EXT_KEY}, ext_column_name"
+_COLUMNS_EXT_SET = "ext_character_maximum_length = {0}, ext_character_octet_length = {1}"
+
+
 def delete_table_ext_sql(catalog: str, schema: str, table: str | None = None) -> str:
-    """Forget the comment and text lengths recorded for a table, or for every table of a schema."""
+    """Forget the comment and text lengths recorded for a table, or for every table of a schema.
+
+    The rows are emptied rather than deleted: within a transaction DuckDB cannot insert a key again after deleting it.
+    """
     where = f"ext_table_catalog = '{catalog}' AND ext_table_schema = '{schema}'"
     if table is not None:
         where += f" AND ext_table_name = '{table}'"
     return f"""
-        DELETE FROM {catalog}.information_schema._fs_tables_ext WHERE {where};
-        DELETE FROM {catalog}.information_schema._fs_columns_ext WHERE {where}
+        UPDATE {catalog}.information_schema._fs_tables_ext SET comment = NULL WHERE {where};
+        UPDATE {catalog}.information_schema._fs_columns_ext SET {_COLUMNS_EXT_SET.format("NULL", "NULL")} WHERE {where}
     """
 
 
 def delete_column_ext_sql(catalog: str, schema: str, table: str, column: str) -> str:
     """Forget the text length recorded for a dropped column."""
     return f"""
-        DELETE FROM {catalog}.information_schema._fs_columns_ext
+        UPDATE {catalog}.information_schema._fs_columns_ext SET {_COLUMNS_EXT_SET.format("NULL", "NULL")}
         WHERE ext_table_catalog = '{catalog}' AND ext_table_schema = '{schema}' AND ext_table_name = '{table}'
             AND ext_column_name = '{column}'
     """
@@ -184,19 +192,30 @@ def rename_column_ext_sql(catalog: str, schema: str, table: str, column: str, to
     """Move the text length recorded for a column to its new name."""
     where = f"ext_table_catalog = '{catalog}' AND ext_table_schema = '{schema}' AND ext_table_name = '{table}'"
     return f"""
-        DELETE FROM {catalog}.information_schema._fs_columns_ext WHERE {where} AND ext_column_name = '{to}';
-        UPDATE {catalog}.information_schema._fs_columns_ext SET ext_column_name = '{to}'
-        WHERE {where} AND ext_column_name = '{column}'
+        {delete_column_ext_sql(catalog, schema, table, to)};
+        INSERT INTO {catalog}.information_schema._fs_columns_ext
+        SELECT {_TABLES_EXT_KEY}, '{to}', ext_character_maximum_length, ext_character_octet_length
+        FROM {catalog}.information_schema._fs_columns_ext WHERE {where} AND ext_column_name = '{column}'
+        ON CONFLICT ({_COLUMNS_EXT_KEY})
+        DO UPDATE SET {_COLUMNS_EXT_SET.format("excluded.ext_character_maximum_length", "excluded.ext_character_octet_length")};
+        {delete_column_ext_sql(catalog, schema, table, column)}
     """
 
 
 def rename_table_ext_sql(catalog: str, schema: str, table: str, to: str) -> str:
     """Move the comment and text lengths recorded for a table to its new name."""
-    where = f"ext_table_catalog = '{catalog}' AND ext_table_schema = '{schema}'"
+    where = f"ext_table_catalog = '{catalog}' AND ext_table_schema = '{schema}' AND ext_table_name = '{table}'"
     return f"""
         {delete_table_ext_sql(catalog, schema, to)};
-        UPDATE {catalog}.information_schema._fs_tables_ext SET ext_table_name = '{to}'
-        WHERE {where} AND ext_table_name = '{table}';
-        UPDATE {catalog}.information_schema._fs_columns_ext SET ext_table_name = '{to}'
-        WHERE {where} AND ext_table_name = '{table}'
+        INSERT INTO {catalog}.information_schema._fs_tables_ext
+        SELECT ext_table_catalog, ext_table_schema, '{to}', comment
+        FROM {catalog}.information_schema._fs_tables_ext WHERE {where}
+        ON CONFLICT ({_TABLES_EXT_KEY}) DO UPDATE SET comment = excluded.comment;
+        INSERT INTO {catalog}.information_schema._fs_columns_ext
+        SELECT ext_table_catalog, ext_table_schema, '{to}', ext_column_name,
+            ext_character_maximum_length, ext_character_octet_length
+        FROM {catalog}.information_schema._fs_columns_ext WHERE {where}
+        ON CONFLICT ({_COLUMNS_EXT_KEY})
+        DO UPDATE SET {_COLUMNS_EXT_SET.format("excluded.ext_character_maximum_length", "excluded.ext_character_octet_length")};
+        {delete_table_ext_sql(catalog, schema, table)}
     """
